@@ -182,6 +182,12 @@ def mn_case(draw):
         args["inplace"] = draw(st.booleans())
     if op == "fg":
         spec["factors"] = gen.drop_equal_factors(spec)
+    elif draw(st.integers(0, 4)) == 0:
+        # the same factor object registered twice (a tied potential): it counts twice
+        i = draw(st.integers(0, len(spec["factors"]) - 1))
+        spec["factors"] = list(spec["factors"]) + [dict(spec["factors"][i])]
+        spec["same_object"] = [[i, len(spec["factors"]) - 1]]
+        spec["has_duplicate"] = True
     return {"spec": spec, "op": op, "args": args}
 
 
@@ -198,6 +204,8 @@ def check_mn(case, out):
     out.cls(f"op_{op}", f"shape_{spec['shape']}", "connected" if conn else "disconnected", "chordal" if chordal0 else "needs_fill_in")
     if spec.get("has_duplicate"):
         out.cls("duplicate_factor")
+    if spec.get("same_object"):
+        out.cls("same_factor_object_twice")
     isolated = [v for v in nodes if not any(v in e for e in spec["edges"])]
     if isolated:
         out.cls("isolated_variable")
